@@ -93,6 +93,9 @@ def load_units():
 
 def make_scratch():
     base = os.environ.get('VERIF_SCRATCH', '/var/tmp')
+    if not (os.path.isdir(base) and os.access(base, os.W_OK)):
+        import tempfile
+        base = tempfile.gettempdir()
     # remove scratch trees left behind by killed runs (their pid is no longer alive)
     for d in glob.glob(os.path.join(base, 'verif-geodesy.*')):
         try:
